@@ -275,7 +275,7 @@ func producers(s *gen.MsgSpec) []string {
 
 func runC12(r *ev.Run, rep *ev.ReplayDoc) ev.Summary {
 	sum := ev.Summary{
-		Rule: "for every shape (enumerated parts x embeds x attachments x message encoding incl. 7bit, S/MIME shapes, random shapes): a fault-free render, then EVERY k in [0, len(output)) with a sink that accepts exactly k bytes and fails afterwards, short-write sinks at sampled k, a destination that refuses exactly one write at every k and accepts everything after it (on a fresh message and on one that has been rendered before), every producer failing before/inside/after its data, caller-supplied ReadSeekers that fail in Read or cannot be rewound after delivering their data, and producer+sink fault pairs; multipart shapes also with caller-defined boundaries that mime/multipart refuses (only no-panic and the exact count are judged there). non-trivial = a fault was injected; distinct by (shape, fault)",
+		Rule: "for every shape (enumerated parts x embeds x attachments x message encoding incl. 7bit, S/MIME shapes, random shapes): a fault-free render, then EVERY k in [0, len(output)) with a sink that accepts exactly k bytes and fails afterwards, short-write sinks at sampled k, a destination that refuses exactly one write at every k and accepts everything after it (on a fresh message and on one that has been rendered before), every producer failing before/inside/after its data, caller-supplied ReadSeekers that fail in Read or cannot be rewound after delivering their data, fs.FS sources that refuse Open at render time, and producer+sink fault pairs; multipart shapes also with caller-defined boundaries that mime/multipart refuses (only no-panic and the exact count are judged there). non-trivial = a fault was injected; distinct by (shape, fault)",
 		Assumptions: []string{
 			"a sink fault is persistent (every write after the first refused one fails too) except in the transient-sink group, where only the write crossing k is refused",
 			"the message is rebuilt for every fault so that a failed render cannot influence the next case (repeatability after a failed render is C11)",
@@ -356,6 +356,19 @@ func runC12(r *ev.Run, rep *ev.ReplayDoc) ev.Summary {
 					jobs = append(jobs, job{c12Case{Spec: s, SinkLimit: -1, Faults: map[string]gen.Fault{fmt.Sprintf("attach%d", fi): ft}}})
 				}
 			}
+		}
+		// a file attached from an fs.FS that refuses Open when the message is rendered
+		if len(s.Attach) > 0 && s.Attach[0].Chunk == 0 {
+			fs2 := s
+			fs2.Attach = append([]gen.FileSpec{}, s.Attach...)
+			fs2.Attach[0].Source = "iofs"
+			jobs = append(jobs, job{c12Case{Spec: fs2, SinkLimit: -1, Faults: map[string]gen.Fault{"attach0": {After: -1, ErrKind: "source-open"}}}})
+		}
+		if len(s.Embeds) > 0 && s.Embeds[0].Chunk == 0 {
+			fs2 := s
+			fs2.Embeds = append([]gen.FileSpec{}, s.Embeds...)
+			fs2.Embeds[0].Source = "iofs"
+			jobs = append(jobs, job{c12Case{Spec: fs2, SinkLimit: -1, Faults: map[string]gen.Fault{"embed0": {After: -1, ErrKind: "source-open"}}}})
 		}
 		if len(s.Parts)+len(s.Embeds)+len(s.Attach) >= 2 && s.SMIME == "" {
 			for bi, bad := range []string{"quote\"inside", strings.Repeat("x", 71), "trailing blank ", "ctl\x01char"} {
